@@ -88,7 +88,7 @@ def rules_c04(prop, repo):
         R.fail_closed("%s:add:arms" % prop, "expected at least two formula arms selected by `z == one()` tests, found %s" % sorted(arms), b.file_line())
     for arm, lst in sorted(formula_arms.items()):
         R.instance()
-        dbl = [(v, pc) for v, pc in lst if isinstance(v, Adt) and v.variant is None and not same_point(v, p1) and not same_point(v, p2) and any(pc == d[0] for d in dom.double_calls)]
+        dbl = [(v, pc) for v, pc in lst if isinstance(v, Adt) and v.variant is None and not same_point(v, p1) and not same_point(v, p2) and any(pc == d[0] or (d[0] and tuple(pc[-len(d[0]):]) == tuple(d[0])) for d in dom.double_calls)]      # (a helper analysed in place records its own part of the path)
         dbl_ok = [1 for v, pc in dbl if zq(pc, ("diff", "x")) is True and zq(pc, ("diff", "y")) is True]
         gen = [(v, pc) for v, pc in lst if isinstance(v, Adt) and v.variant == "G"]
         fall = [pc for v, pc in gen if zq(pc, ("diff", "x")) is not False and zq(pc, ("diff", "y")) is not False]
@@ -137,7 +137,24 @@ def rules_c04(prop, repo):
         R2.fail_closed("%s:sub:anchor" % prop, "G::sub not found")
     else:
         rv = repo.tb(sb).return_value()
-        ok = rv[0] == "call" and is_adder(rv[1]) and strip(rv[2][0]) == ("param", 1) and strip(rv[2][1])[0] == "call" and strip(rv[2][1])[1].name == "neg" and strip(strip(rv[2][1])[2][0]) == ("param", 2)
+
+        def negated_other(x):
+            x = strip(x)
+            if x[0] == "call" and x[1].name == "neg" and len(x[2]) == 1 and strip(x[2][0]) == ("param", 2):
+                return True
+            # the negation written out: (x, −y, z) of the subtrahend (an identity stays an identity whatever its y)
+            if x[0] == "agg" and isinstance(x[1], str) and x[1].endswith("groups::G") and len(x[3]) == 3:
+                c = [strip(y) for y in x[3]]
+                return c[0] == ("field", ("param", 2), 0) and c[2] == ("field", ("param", 2), 2) and c[1][0] == "call" and c[1][1].name == "neg" and len(c[1][2]) == 1 \
+                    and strip(c[1][2][0]) == ("field", ("param", 2), 1)
+            return False
+
+        def is_sub(v):
+            v = strip(v)
+            return v[0] == "call" and is_adder(v[1]) and len(v[2]) == 2 and strip(v[2][0]) == ("param", 1) and negated_other(v[2][1])
+        ok = is_sub(rv)
+        if not ok:
+            ok, _why = shared.forwards(repo, sb, is_sub, "gsub")
         R2.check(ok, "%s:sub" % prop, "G::sub is not self + (−other): %s" % show(rv, maxdepth=3)[:160], sb.file_line(), sb.rec["path"], sample={"sub": show(rv, maxdepth=3)[:120]})
     nb = F.bodies.get("<crate::groups::G<P> as core::ops::Neg>::neg")
     R2.instance()
@@ -205,6 +222,86 @@ def dom_vids_of_class(dom, rs, cls):
     return vids
 
 
+def eq_truth_table(repo, b):
+    """G::eq over opaque coordinates on the byte machine: every opaque predicate (is_zero of a z, a cross-multiplied comparison)
+    is answered both ways, once per path; each path's answer must be the value of
+        (z1 = 0 ∧ z2 = 0) ∨ (z1 ≠ 0 ∧ z2 ≠ 0 ∧ x-comparison equal ∧ y-comparison equal)
+    and be determined by the predicates that path actually asked.  → (violations, rows)"""
+    from core.bytex import Machine, T, Adt as BAdt, Ref as BRef
+    F = repo.F
+    gfile = (b.rec.get("span") or {}).get("file")
+    pol = lambda cb: (cb.rec.get("span") or {}).get("file") == gfile or cb.rec["kind"] in ("Closure", "Ctor")
+    pts = [BAdt("crate::groups::G", "G", [T("x%d" % i), T("y%d" % i), T("z%d" % i)]) for i in (1, 2)]
+    insts = [i["inst"] for i in F.inst_by_def.get(b.rec["path"], [])] or [None]
+    bad, rows = [], []
+
+    def leaves(t, acc):
+        if isinstance(t, T) and len(t) == 1 and isinstance(t[0], str) and t[0][:1] in "xyz" and t[0][1:].isdigit():
+            acc.add(t[0])
+        elif isinstance(t, BAdt):
+            for f in t.fields:
+                leaves(f, acc)
+        elif isinstance(t, tuple):
+            for u in t:
+                if isinstance(u, (tuple, BAdt)):
+                    leaves(u, acc)
+        return acc
+
+    def tri_and(*xs):
+        if any(x is False for x in xs):
+            return False
+        return True if all(x is True for x in xs) else None
+
+    def tri_or(*xs):
+        if any(x is True for x in xs):
+            return True
+        return False if all(x is False for x in xs) else None
+
+    def tri_not(x):
+        return None if x is None else (not x)
+    try:
+        outs = Machine(F, pol).run(b, [BRef(0, 0), BRef(0, 1)], holders=pts, inst=insts[0])
+    except Exception as e:
+        return ["not evaluated: %s" % str(e)[:80]], []
+    split = []
+    for o in outs:
+        if o.kind == "return" and isinstance(o.value, T):
+            for ans in (True, False):
+                split.append((ans, tuple(o.pc) + ((o.value, ans),), o))
+        else:
+            split.append((o.value if o.kind == "return" else None, tuple(o.pc), o))
+    for val, pc, o in split:
+        if o.kind != "return" or not isinstance(val, bool):
+            bad.append("path ends in %r" % (o,))
+            continue
+        z = {1: None, 2: None}
+        xe = ye = None
+        unread = []
+        for atom, ch in pc:
+            nm = atom[1].split("::")[-1] if isinstance(atom, T) and atom[0] == "call" and isinstance(atom[1], str) else None
+            lv = leaves(atom, set()) if isinstance(atom, T) else set()
+            if nm == "is_zero" and lv in ({"z1"}, {"z2"}):
+                z[1 if lv == {"z1"} else 2] = bool(ch)
+            elif nm in ("eq", "ne") and {"x1", "x2"} <= lv and not ({"y1", "y2"} & lv):
+                xe = bool(ch) if nm == "eq" else not bool(ch)
+            elif nm in ("eq", "ne") and {"y1", "y2"} <= lv and not ({"x1", "x2"} & lv):
+                ye = bool(ch) if nm == "eq" else not bool(ch)
+            elif nm in ("eq", "ne") and lv and lv <= {"z1", "z2"} and any(isinstance(a_, T) and a_[0] == "call" and a_[1].split("::")[-1] == "zero" for a_ in atom[3]) and len(lv) == 1:
+                k = 1 if lv == {"z1"} else 2
+                z[k] = bool(ch) if nm == "eq" else not bool(ch)
+            else:
+                unread.append(repr(atom)[:60])
+        want = tri_or(tri_and(z[1], z[2]), tri_and(tri_not(z[1]), tri_not(z[2]), xe, ye))
+        rows.append({"self=O": z[1], "other=O": z[2], "x equal": xe, "y equal": ye, "result": val})
+        if unread:
+            bad.append("decides on %s" % unread[:2])
+        elif want is None:
+            bad.append("answers %s after asking only self=O:%s other=O:%s x:%s y:%s" % (val, z[1], z[2], xe, ye))
+        elif want != val:
+            bad.append("answers %s where (self=O:%s other=O:%s x equal:%s y equal:%s) means %s" % (val, z[1], z[2], xe, ye, want))
+    return bad, rows
+
+
 # ====================================================================== C15
 def rules_c15(prop, repo):
     F = repo.F
@@ -217,45 +314,9 @@ def rules_c15(prop, repo):
     else:
         p1, p2 = gpoint("s1"), gpoint("s2")
         dom, rs = wrun(F, b, [("byref", p1), ("byref", p2)])
-        bad = []
-        rows = []
-        # a returned comparison / identity test stands for both of its outcomes
-        expanded = []
-        for v, pc in rs:
-            if isinstance(v, tuple) and len(v) == 4 and v[0] == "cond" and v[1] == "cmp":
-                x, y = v[2]
-                for e in (True, False):
-                    expanded.append((e != v[3], tuple(pc) + (("cmp", x.cls, y.cls, dict(x.f), e),)))
-            elif isinstance(v, tuple) and len(v) == 4 and v[0] == "cond" and v[1] == "iszero":
-                w = v[2]
-                for e in (True, False):
-                    expanded.append((e != v[3], tuple(pc) + (("is_zero", w.vid, dict(w.f), w.cls, e),)))
-            else:
-                expanded.append((v, pc))
-        for v, pc in expanded:
-            z1 = next((c[4] for c in pc if c[0] == "is_zero" and c[1] == p1.fields[2].vid), None)
-            z2 = next((c[4] for c in pc if c[0] == "is_zero" and c[1] == p2.fields[2].vid), None)
-            cmps = [(c[1], c[2], c[4]) for c in pc if c[0] == "cmp"]
-            rows.append({"self=O": z1, "other=O": z2, "comparisons": cmps, "result": repr(v)[:40]})
-            if z1 is True:
-                if z2 is None or v is not z2:
-                    bad.append("self = O must return other.is_zero(): %r (other tested: %s)" % (v, z2))
-            elif z2 is True:
-                if v is not False:
-                    bad.append("self ≠ O, other = O must return false: %r" % (v,))
-            else:
-                eqx = [c for c in cmps if c[0] == "x" and c[1] == "x"]
-                eqy = [c for c in cmps if c[0] == "y" and c[1] == "y"]
-                if v is True:
-                    if not (eqx and eqy and all(c[2] for c in eqx + eqy)):
-                        bad.append("returns true without both the x- and the y-comparison being equal: %s" % cmps)
-                elif v is False:
-                    if not any(not c[2] for c in cmps):
-                        bad.append("returns false although no comparison failed: %s" % cmps)
-                else:
-                    bad.append("non-constant result %r" % (v,))
         errs = sorted(set(dom.errors))
-        R.check(not bad and not errs and len(rs) >= 4, "%s:eq:truth-table" % prop, "G::eq: %s %s" % (bad[:2], errs[:2]), b.file_line(), b.rec["path"], sample={"rows": rows})
+        bad, rows = eq_truth_table(repo, b)
+        R.check(not bad and not errs and len(rows) >= 4, "%s:eq:truth-table" % prop, "G::eq: %s %s" % (bad[:2], errs[:2]), b.file_line(), b.rec["path"], sample={"rows": rows[:12]})
     out.append(R.finish())
 
     R2 = Rule("R-AFFINE-NONE", "to_affine is None ⇔ z = 0 and otherwise yields weight-0 coordinates; to_jacobian sets z = one(); normalize only rewrites through them", floor=3, exhaustive=True)
